@@ -17,7 +17,7 @@ EXPLANATION = (
     'user callback; R04.g crux-provided futures keep the poll\'s waker; R04.h done / event / notify_shell / request_from_shell / '
     'stream_from_shell make exactly the one context call they stand for, on every path, with their own argument; R04.i every task leaving a command wakes its join handles. '
     'Equivalence to the reference semantics, the algebraic laws and the behaviour of then_request/then_stream under every resolution '
-    'order quantify over expressions x schedules and are NOT decided.')
+    'order quantify over expressions x schedules and are NOT decided. R04.j a hosted command returns Pending only after both output queues were found empty and ends only when done (shared with C07 R07.e).')
 
 HOST = 'crux_core::command::stream::CommandStreamExt::host'
 POLL = 'core::future::future::Future::poll'
